@@ -3,6 +3,7 @@ package main
 import (
 	"context"
 	"fmt"
+	"github.com/brimdata/super/pkg/verifhook"
 	"sort"
 	"strings"
 	"sync"
@@ -21,6 +22,9 @@ import (
 func init() { register("C13", runC13) }
 
 func runC13(c *rt.Ctx) {
+	// released zngio buffers are overwritten (H1): lake code that keeps using a
+	// value after the reader has moved on reads garbage deterministically
+	verifhook.SetPoison(true)
 	c.Note("rule", "(a) histories: random multi-branch lake histories (loads, deletes, delete-where, compactions, merges, reverts, vector adds, vacuum, pool rename); after every step every commit created so far is re-queried by id, from the acting handle and from a cold one, and must equal what the model recorded when the commit was created (a commit whose objects were vacuumed may fail but never answer differently); (b) reader isolation under the operation-level scheduler: a reader (compile + batch-by-batch pulls of `from p@main`, on a handle with warm caches) against 1–2 writers (load, delete, delete-where, compact, revert, merge, add-vectors, pool rename): every single-preemption schedule reader/writer in both roles, plus random segment schedules; the reader must return exactly the value set of one commit of main's final chain, not older than the last commit acknowledged before the reader was started and not newer than the last commit started before it returned; (c) free-running readers and writers on one shared handle under the race detector; evaluations = history steps + schedules; non-trivial = (a) history with a compaction or revert after a re-queried commit, (b) schedule in which a writer committed between two reader pulls")
 	c.Note("granularity", "reader/writer interleavings at storage-operation granularity (scheduler), plus free-running goroutines under the race detector for in-memory state")
 	c.Note("assumptions", "vacuum is the only operation allowed to make an old commit unreadable\nthe reader's warm caches are produced by running a query on its handle before the scheduled phase")
@@ -428,6 +432,9 @@ func c13States(w *c12World, chain []ksuid.KSUID, byCommit map[ksuid.KSUID]*c12Ev
 			if !merged {
 				for _, id := range w.b1Extra {
 					state[id] = true
+				}
+				for _, id := range w.b1Gone {
+					delete(state, id)
 				}
 				merged = true
 			}
